@@ -21,6 +21,11 @@ class PathAbort(BaseException):
     """Internal: abandon the current path (infeasible concretisation)."""
 
 
+class BudgetExceeded(BaseException):
+    """Internal: the job's time budget ran out in the middle of a path (a BaseException so that `except Exception` in the code
+    under analysis cannot swallow it)."""
+
+
 def current(optional=False):
     if not _CUR:
         if optional:
@@ -63,10 +68,13 @@ class Explorer:
         self._path = None
         self._memo = None
         self._work = []
+        self._deadline = None
 
     # -- solver helpers ------------------------------------------------------
     def check(self, *extra):
         t0 = time.time()
+        if self._deadline is not None and t0 > self._deadline:
+            raise BudgetExceeded()
         self.solver.push()
         for e in extra:
             self.solver.add(e)
@@ -78,6 +86,8 @@ class Explorer:
 
     def model_of(self, *extra):
         t0 = time.time()
+        if self._deadline is not None and t0 > self._deadline:
+            raise BudgetExceeded()
         self.solver.push()
         for e in extra:
             self.solver.add(e)
@@ -171,6 +181,7 @@ class Explorer:
         """Generator over completed paths of fn()."""
         self._work = [[]]
         t0 = time.time()
+        self._deadline = t0 + 1.25 * self.max_seconds + 30
         _CUR.append(self)
         try:
             while self._work:
@@ -185,6 +196,8 @@ class Explorer:
                     p.value = fn()
                 except PathAbort:
                     continue
+                except BudgetExceeded:
+                    raise Inconclusive(f"time budget {self.max_seconds}s exhausted inside a path")
                 except Inconclusive:
                     raise
                 except Exception as e:  # an exception raised by the code under analysis (or the model)
@@ -194,3 +207,4 @@ class Explorer:
         finally:
             _CUR.pop()
             self._path = None
+            self._deadline = None
